@@ -21,11 +21,31 @@ def variantMethod (fixed : Bool) (p : Platform) (m : Method) : Method :=
     { m with decorators := if fixed then ["wrap_exceptions"] else [] }
   else m
 
-def faultOKc (c : Cfg) (p : Platform) (m : Method) (call : String) (e : Err) (env : Env) : Bool :=
+/-- within the specification — pure `Spec.allowed`, nothing tolerated -/
+def faultStrictOKc (c : Cfg) (p : Platform) (m : Method) (call : String) (e : Err) (env : Env) : Bool :=
   Spec.allowed p m.name (Spec.recoverable p m.name call) e env (methodFault c p m call e env false).1
+
+/-- the one outcome tolerated outside the specification: finding C20-sunos-aix-exists-means-zombie —
+    in the region `Spec.knownZombieDeviation` (Solaris / AIX, "no such process" failure, process not a
+    zombie but still there) the decorator's ZombieProcess(pid, name, ppid), and nothing else -/
+def zombieDeviation (p : Platform) (e : Err) (env : Env) (o : Outcome) : Bool :=
+  Spec.knownZombieDeviation p.family e env && o == .zombie env.pid true
+
+/-- `tol = false`: the specification, nothing else; `tol = true`: plus the known deviation -/
+def faultOKt (tol : Bool) (c : Cfg) (p : Platform) (m : Method) (call : String) (e : Err) (env : Env) : Bool :=
+  faultStrictOKc c p m call e env || (tol && zombieDeviation p e env (methodFault c p m call e env false).1)
+
+def faultOKc (c : Cfg) (p : Platform) (m : Method) (call : String) (e : Err) (env : Env) : Bool :=
+  faultOKt true c p m call e env
 
 def faultOK (p : Platform) (m : Method) (call : String) (e : Err) (env : Env) : Bool :=
   faultOKc cfg p m call e env
+
+/-- outside Solaris / AIX nothing is tolerated: the tolerant judgement IS the strict one -/
+theorem faultOKt_strict_of_family (tol : Bool) (c : Cfg) (p : Platform) (m : Method) (call : String) (e : Err) (env : Env)
+    (h1 : p.family ≠ .sunos) (h2 : p.family ≠ .aix) :
+    faultOKt tol c p m call e env = faultStrictOKc c p m call e env := by
+  simp [faultOKt, zombieDeviation, Spec.knownZombieDeviation, h1, h2]
 
 /-- the two call sites recorded as known findings (findings/C20.json) — each one only as long as
     the translator sees the unrepaired shape in the current source -/
@@ -35,14 +55,32 @@ def knownFinding (p : Platform) (meth call : String) : Bool :=
      (meth == "memory_maps" && call == "QueryDosDevice" && !cfg.winMapsLoopGuarded))
 
 /-- one row of the generated traces under configuration `c`, methods seen through `mt` -/
-def traceRowOKc (c : Cfg) (mt : Platform → Method → Method) (excl : Platform → String → String → Bool)
+def traceRowOKt (tol : Bool) (c : Cfg) (mt : Platform → Method → Method) (excl : Platform → String → String → Bool)
     (p : Platform) (row : String × Nat × List String) : Bool :=
   match methodOf? p row.1 with
   | none => false
   | some m =>
     row.2.2.all fun call =>
       excl p row.1 call ||
-      (sweptErrs p).all fun e => (sweptEnvs row.2.1).all fun env => faultOKc c p (mt p m) call e env
+      (sweptErrs p).all fun e => (sweptEnvs row.2.1).all fun env => faultOKt tol c p (mt p m) call e env
+
+/-- the tolerant judgement (known deviation C20-sunos-aix-exists-means-zombie accepted in its region) -/
+def traceRowOKc (c : Cfg) (mt : Platform → Method → Method) (excl : Platform → String → String → Bool)
+    (p : Platform) (row : String × Nat × List String) : Bool :=
+  traceRowOKt true c mt excl p row
+
+/-- the strict judgement: `Spec.allowed` only, no call site excluded, nothing tolerated -/
+def traceRowStrict (p : Platform) (row : String × Nat × List String) : Bool :=
+  traceRowOKt false cfg (fun _ m => m) (fun _ _ _ => false) p row
+
+theorem traceRowOKt_strict_of_family (tol : Bool) (c : Cfg) (mt : Platform → Method → Method)
+    (excl : Platform → String → String → Bool) (p : Platform) (row : String × Nat × List String)
+    (h1 : p.family ≠ .sunos) (h2 : p.family ≠ .aix) :
+    traceRowOKt tol c mt excl p row = traceRowOKt false c mt excl p row := by
+  unfold traceRowOKt
+  cases methodOf? p row.1 with
+  | none => rfl
+  | some m => simp [faultOKt_strict_of_family _ c p _ _ _ _ h1 h2]
 
 def traceRowOK (strict : Bool) (p : Platform) (row : String × Nat × List String) : Bool :=
   traceRowOKc cfg (fun _ m => m) (fun p m c => !strict && knownFinding p m c) p row
